@@ -133,7 +133,7 @@ func TestCheck(t *testing.T) {
 	r := mon.New("C05")
 	defer r.Flush()
 	if os.Getenv("VERIF_REPLAY") == "" {
-		r.Watchdog(60 * time.Second)
+		r.Watchdog(20 * time.Second)
 	}
 	typed = v6util.TypedCodes()
 	var rp replay
